@@ -387,7 +387,10 @@ macro_rules! common_impl {
             let invoked = AtomicBool::new(false);
             let r = self.ch.send_with(|slot: &mut T| {
                 invoked.store(true, Ordering::Relaxed);
+                // a setter is user code: it may take arbitrarily long (a scheduling point before and after the write)
+                ctx::harness_point();
                 unsafe { std::ptr::write(slot, T::make(id)) }
+                ctx::harness_point();
             });
             map_send_setter(r, &invoked)
         }
@@ -402,7 +405,9 @@ macro_rules! common_impl {
                         invoked2.store(true, Ordering::Relaxed);
                         async move {
                             gate.await;
+                            ctx::harness_point();
                             unsafe { std::ptr::write(slot, T::make(id)) };
+                            ctx::harness_point();
                             slot
                         }
                     })
@@ -459,7 +464,9 @@ macro_rules! common_impl {
             self.ch.reserve_slot().map(|slot| slot as *mut T as usize)
         }
         fn fill(&self, slot: usize, id: u32) {
+            ctx::harness_point();
             unsafe { std::ptr::write(slot as *mut T, T::make(id)) }
+            ctx::harness_point();
         }
         fn send_reserved(&self, slot: usize) -> bool {
             self.ch.try_send_reserved(unsafe { &mut *(slot as *mut T) })
